@@ -162,14 +162,14 @@ for _k, _v in _EXTRA2.items():
 _EXTRA3 = {
  'C01': ' The MMX and SSE2 helpers that widen r5g6b5 destinations and narrow the result back are checked bit for bit against replication / truncation (C01-R8, 33 wrappers through a SIMD bit-provenance interpreter).',
  'C02': ' The pixbuf/rpixbuf format substitution requires equal source and mask origins (C02-R15); SIMD 565/8888 helpers have the provenance of the general codec (C02-R16); in SSE2 bilinear scanlines the packed weight vector advances with the scalar position on every edge (C02-R17, relational induction over paired phis); convolution fetchers of the fast path and of the general path subtract the same rounding epsilon (C08-R11).',
- 'C04': ' NORMAL-repeat coordinate wraps of the scaled scanlines are loops, not single subtractions (C04-R9); rotation offsets and convolution window starts use the common rounding epsilon (C08-R11); the right-edge clamp of the edge rasterisers is the depth\'s own (C04-R7).',
+ 'C04': ' No pixel loop fetches through a loop-carried cursor a value that only the next iteration uses, unless it tests the remaining count first (C04-R10, 956 loops); NORMAL-repeat coordinate wraps of the scaled scanlines are loops, not single subtractions (C04-R9); rotation offsets and convolution window starts use the common rounding epsilon (C08-R11); the right-edge clamp of the edge rasterisers is the depth\'s own (C04-R7).',
  'C05': ' copy() sets numRects on every path that copies (C05-R5); extents-subsumption shortcuts of union require the subsuming region to be a single rectangle (C05-R6); all scans of the rectangle sort compare (y1, x1) with (y1, x1) (C05-R7).',
  'C06': ' Independent comparisons of one coordinate pair never are strict in opposite directions (C06-R6, contradiction rule: boundary case classified consistently).',
  'C07': ' The previous-band index of init_from_image survives an iteration only on the path that extended that band (C07-R6, path-sensitive); equality sides of independent comparisons agree (C07-R7).',
  'C08': ' Signed division of projective coordinates (C08-R9, found defect F19 - fixed); AFFINE/scale/rotate flags require matrix[2][2] == 1 (C08-R10); rounding epsilon siblings (C08-R11); SSE2 bilinear weight vector tracks vx (C08-R13).',
  'C09': ' Opacity of a solid is decided on the 16-bit alpha; constants or-ed into substituted samples (C09-R6).',
  'C10': ' Accessor presence is tested with the same (||) predicate at every site (C10-R10); the two yuy2 readers address the shared chroma pair identically (C10-R11); SIMD 565/8888 widening and narrowing helpers bit for bit (C10-R12); arithmetic in the 16->8 colour narrowing is a violation (C19-R3).',
- 'C11': ' rotate/scale/translate multiply forward on the left and reverse on the right (C11-R8).',
+ 'C11': ' rotate/scale/translate multiply forward on the left and reverse on the right (C11-R8); the signed wrapper of the 128-bit division negates dividend and quotient as one two\'s-complement (hi, lo) number, carry included (C11-R9, affine path evaluation).',
  'C12': ' pixman_edge_step conserves e + x*dy on both branches, sign and carry (C12-R9, found defect F20 - fixed).',
  'C13': ' Every component of the running position advances on every path round a pixel loop (C13-R8); the radial parameter written is a root of a*T^2 - 2bT + c, also in the linear case (C13-R9, symbolic).',
  'C14': ' Early returns of setters compare whole objects (region_equal only with have_clip_region; byte counts in bytes) (C14-R3); copy() keeps size/numRects in step (C05-R5).',
